@@ -347,4 +347,20 @@ theorem voxelToFrac_in_unit (n : Nat) (v : Nat) (hv : v < n) : 0 < voxelToFrac n
 example : counts 2 3 1 [⟨1/8, 1/3, 0⟩, ⟨5/8, 2/3, 1/2⟩, ⟨1/2, 0, 63/64⟩] = [0, 1, 0, 1, 0, 1] := by
   decide +kernel
 
+/-- **C08 (additivity)**: the density of a sample list that continues another is, voxel by voxel, the sum of the two densities —
+the volume of a trajectory is the sum of the volumes of its parts (frames, blocks of samples, `split` parts), so accumulating
+block-wise needs `+=` (an assignment per block keeps only the last block's count of a voxel). -/
+theorem counts_append_get (nx ny nz : Nat) (xs ys : List V3) (i j k : Nat) (hi : i < nx) (hj : j < ny) (hk : k < nz) :
+    (counts nx ny nz (xs ++ ys)).getD ((i * ny + j) * nz + k) 0
+      = (counts nx ny nz xs).getD ((i * ny + j) * nz + k) 0 + (counts nx ny nz ys).getD ((i * ny + j) * nz + k) 0 := by
+  rw [counts_get nx ny nz _ i j k hi hj hk, counts_get nx ny nz xs i j k hi hj hk, counts_get nx ny nz ys i j k hi hj hk,
+    List.filter_append, List.length_append]
+
+/-- the order of the samples does not matter -/
+theorem counts_perm_get (nx ny nz : Nat) (xs ys : List V3) (h : xs.Perm ys) (i j k : Nat) (hi : i < nx) (hj : j < ny) (hk : k < nz) :
+    (counts nx ny nz xs).getD ((i * ny + j) * nz + k) 0 = (counts nx ny nz ys).getD ((i * ny + j) * nz + k) 0 := by
+  rw [counts_get nx ny nz xs i j k hi hj hk, counts_get nx ny nz ys i j k hi hj hk]
+  exact (h.filter _).length_eq
+
+
 end G.C08
